@@ -40,6 +40,37 @@ Print Assumptions c10_unimodular_basis_change.
 Example c10_unimodular_ex : mulmm ((1, 0, 0), (-2, 1, 0), (-7, 3, 1)) ((1, 0, 0), (2, 1, 0), (1, -3, 1)) = ident.
 Proof. reflexivity. Qed.
 
+(** Isometric changes of description (an orthogonal rotation of crystal and data, a relabelling of the atoms) act on coefficient and
+    force spaces by isometries.  When the second description's design is the transported one (X' o qC = qO o X, which the metamorphic
+    oracle checks on the implementation) the admissible least-squares minimisers of the second description are exactly the transported
+    minimisers of the first ... *)
+From Coq Require Import Reals.
+From SymfcV Require Import IPS Covariance.
+Theorem c10_transported_fit (C C' O O' : IPS) (X : C -> O) (X' : C' -> O') (qC : C -> C') (qO : O -> O') (Adm : C -> Prop) (y : O) :
+  (forall a b, ip (qO a) (qO b) = ip a b) -> (forall a b, qO (vsub a b) = vsub (qO a) (qO b)) ->
+  (forall c, X' (qC c) = qO (X c)) ->
+  (forall c, cmin C O X Adm y c -> cmin' C C' O O' X' qC qO Adm y (qC c)) /\
+  (forall c', cmin' C C' O O' X' qC qO Adm y c' -> exists c, cmin C O X Adm y c /\ c' = qC c).
+Proof.
+  intros H1 H2 H3. split.
+  - exact (minimiser_transported C C' O O' X X' qC qO H1 H2 H3 Adm y).
+  - exact (minimiser_only_transported C C' O O' X X' qC qO H1 H2 H3 Adm y).
+Qed.
+Print Assumptions c10_transported_fit.
+
+(** ... and the invariant (admissible) space of the transported operators is the transported invariant space. *)
+Theorem c10_transported_invariants (W W' : IPS) (q : W -> W') (qi : W' -> W) (ops : list ((W -> W) * (W' -> W'))) :
+  (forall v, qi (q v) = v) -> (forall g g', In (g, g') ops -> forall v, g' (q v) = q (g v)) ->
+  forall v, (forall g g', In (g, g') ops -> g v = v) <-> (forall g g', In (g, g') ops -> g' (q v) = q v).
+Proof. intros H1 H2. exact (fixed_space_transported W W' q qi H1 ops H2). Qed.
+Print Assumptions c10_transported_invariants.
+
+(** non-vacuity: on R with the design c |-> 2c and the inversion as the orthogonal map, 3 is the minimiser for y = 6 and -3 for y = -6 *)
+Theorem c10_transported_fit_nonvacuous :
+  cmin IPSInst.R_IPS IPSInst.R_IPS X_ex (fun _ => True) 6%R 3%R /\
+  cmin' IPSInst.R_IPS IPSInst.R_IPS IPSInst.R_IPS IPSInst.R_IPS X_ex neg_ex neg_ex (fun _ => True) 6%R (-3)%R.
+Proof. exact (proj2 (proj2 (proj2 covariance_hypotheses_hold))). Qed.
+
 (** Hand-modelled code this property's model and correspondences were written against is unchanged (the permutation search and the representation classes; the distance computation of FCCutoff):
     whole-function match against the recorded source, regenerated on every run. *)
 From SymfcG Require Import ShapesSpg ShapesGeom.
